@@ -204,6 +204,20 @@ class Composite(LexicalParent[Node], HasCreator, Node, ABC):
                 # The signal queue is empty, but there is still someone running...
                 sleep(self._child_sleep_interval)
 
+        for label in self.provenance_by_completion:
+            # A child that failed on an executor raised inside its future's callback,
+            # where nobody hears it: collect what its future holds
+            child = self.children.get(label)
+            future = None if child is None else child.future
+            if (
+                child is not None
+                and child.failed
+                and future is not None
+                and future.done()
+                and future.exception() is not None
+            ):
+                errors.setdefault(child.full_label, future.exception())
+
         if len(errors) == 1:
             raise FailedChildError(
                 f"{self.full_label} encountered error in child: {errors}"
